@@ -51,7 +51,10 @@ def _case(draw, tier):
         n["async_handler"] = prob(draw, 0.4)  # `async def` handler: its awaited result decides, not the coroutine object
         ans = {}
         for o in n["outs"]:
-            ans[o] = draw(st.sampled_from(FALSY)) if prob(draw, 0.25) else ["ans", n["name"], o]
+            if prob(draw, 0.15):
+                ans[o] = {"__amb__": f"{n['name']}.{o}"}  # a response whose `!=` has no truth value (array-like)
+            else:
+                ans[o] = draw(st.sampled_from(FALSY)) if prob(draw, 0.25) else ["ans", n["name"], o]
         n["answers"] = ans
         if len(n["params"]) >= 2 and prob(draw, 0.3):
             p, q = n["params"][0], n["params"][1]
@@ -128,8 +131,8 @@ def check_case(case, ev):
     if out_a.status != "completed":
         raise Violation("c14.auto_run", f"run with auto-answering handlers gave {out_a.brief()}")
     want_final = {k: v for k, v in env.items()}
-    if out_a.values != want_final:
-        diff = {k: (J(out_a.values.get(k, "<absent>")), J(want_final.get(k, "<absent>"))) for k in set(out_a.values) | set(want_final) if out_a.values.get(k, "<absent>") != want_final.get(k, "<absent>")}
+    if not (out_a.values == want_final):
+        diff = {k: (J(out_a.values.get(k, "<absent>")), J(want_final.get(k, "<absent>"))) for k in set(out_a.values) | set(want_final) if not (out_a.values.get(k, "<absent>") == want_final.get(k, "<absent>"))}
         raise Violation("c14.auto_values", f"auto-answered run differs from the reference: (got, expected) {diff}")
 
     # ---- protocol loop
@@ -171,7 +174,7 @@ def check_case(case, ev):
         first_in = node["params"][0] if node["params"] else None
         if node["params"]:
             # the value shown is the first (current) input's value
-            if p.value != want_value:
+            if not (p.value == want_value):
                 raise Violation("c14.pause_value", f"[{tag}] pause.value={J(p.value)} expected the interrupt's first input {first_in}={J(want_value)}")
         if p.output_param != node["outs"][0] or p.response_key != node["outs"][0]:
             raise Violation("c14.response_key", f"[{tag}] output_param={p.output_param!r} response_key={p.response_key!r}, expected {node['outs'][0]!r}")
@@ -194,7 +197,7 @@ def check_case(case, ev):
                     want = (n["name"], i, calls[-1])
                 if o not in out.values:
                     raise Violation("c14.completed_value_missing", f"[{tag}] node {n['name']} completed in this call but its output {o!r} is not in the PAUSED result {sorted(out.values)}", sibling=True)
-                if out.values[o] != want:
+                if not (out.values[o] == want):
                     raise Violation("c14.paused_value_wrong", f"[{tag}] {o}={J(out.values[o])} expected {J(want)}")
         for k2, v in out.values.items():
             if k2 in vals:
@@ -210,8 +213,8 @@ def check_case(case, ev):
         for o in node["outs"]:
             supplied[p.response_keys[o]] = answers[node["name"]][o]
         answered.add(node["name"])
-    if out.values != want_final:
-        diff = {k: (J(out.values.get(k, "<absent>")), J(want_final.get(k, "<absent>"))) for k in set(out.values) | set(want_final) if out.values.get(k, "<absent>") != want_final.get(k, "<absent>")}
+    if not (out.values == want_final):
+        diff = {k: (J(out.values.get(k, "<absent>")), J(want_final.get(k, "<absent>"))) for k in set(out.values) | set(want_final) if not (out.values.get(k, "<absent>") == want_final.get(k, "<absent>"))}
         raise Violation("c14.resumed_values", f"after answering {sorted(answered)} the run completed with (got, expected) {diff}", emit=any(n.get("emit") for n in inter))
     if len(answered) != len([n for n in pausing if args.get(n["name"]) is not None]):
         raise Violation("c14.pause_count", f"paused at {sorted(answered)}, runnable pausing interrupts: {[n['name'] for n in pausing if args.get(n['name']) is not None]}")
@@ -271,6 +274,6 @@ def _nested_identity(case, topo, values0, args, labels):
         raise Violation("c14.nested_response_key", f"pause.response_key={p.response_key!r}, expected {want_key!r}")
     if p.response_keys != {o: ".".join(path + [o]) for o in target["outs"]}:
         raise Violation("c14.nested_response_keys", f"pause.response_keys={p.response_keys}")
-    if target["params"] and p.value != args[target["name"]][0]:
+    if target["params"] and not (p.value == args[target["name"]][0]):
         raise Violation("c14.nested_pause_value", f"pause.value={J(p.value)} expected {J(args[target['name']][0])}")
     labels.add(f"nested_identity_depth{case['nest']['depth']}")
